@@ -115,6 +115,16 @@ def run(ctx):
     # name once and is imported in a single pass; the predicted entry order is compared with the real one below
     mc.append(ctx.tlc("TarExport", "C09_mc_roundtrip.cfg", workers=2, timeout=1500,
                       label="export walk composed with the importer, every single-root graph"))
+    vacuous = None
+    if thorough:
+        # action coverage (TLC's -coverage runs out of memory on the recursive operators): registers
+        cv = ctx.tlc("TarImportCov", "C09_cov.cfg", workers=1, timeout=3000, label="action coverage of the importer spec")
+        m = re.search(r'<<\s*"COVERAGE",\s*<<(.*?)>>\s*>>', cv["output"], re.S)
+        if not m:
+            raise vlib.ToolError("coverage run printed no COVERAGE line")
+        vacuous = [x for x in re.findall(r'"([^"]*)"', m.group(1)) if x]
+        if vacuous:
+            raise vlib.ToolError("actions of TarImport.tla never taken: %s" % vacuous)
     xg = ctx.tlc("TarExportGen", "C09_gen_export.cfg", workers=1, timeout=1500, label="generator: export entry order")
     xorder = {}
     for m in re.finditer(r'^<<"XORD", "(.*)">>$', xg["output"], re.M):
@@ -444,6 +454,7 @@ def run(ctx):
         "graphs": graphs, "link_patterns": patterns, "endpoint_pairs": pairs, "multi_pass_imports": multipass,
         "pred_compared": compared, "pred_exact": exact, "export_orders_compared": xcompared,
         "drift": drift, "drift_samples": drift_samples,
+        "vacuous_actions": vacuous if vacuous is not None else "checked in the thorough tier",
         "entry_points": ["RegClient.ImageExport", "RegClient.ImageImport", "ImageWithExportCompress", "ImageWithExportRef",
                          "ImageWithImportName", "scheme reg + ocidir blob/manifest put"],
     }
